@@ -3,7 +3,7 @@ in-place write site (R-OWN). Observational equality of values is not needed: no 
 import ast
 import re
 
-from ..core import (AnalysisError, body_nodes, call_name, dotted, is_self_attr, key_text, kwarg,
+from ..core import (AnalysisError, phase_helpers, body_nodes, call_name, dotted, is_self_attr, key_text, kwarg,
                     params, parent, stmts_of, unparse)
 from ..own import BENIGN_INPLACE, OWN_LISTS, FuncInfo, Own, join
 
@@ -37,6 +37,7 @@ ACCEPTED = {
     'in an object array; no tensor is modified',
 }
 VALUE_CLASSES = {'Array', 'LegCharge', 'LegPipe', 'ChargeInfo', 'DipolarChargeInfo'}
+ACCEPTED_CALLEE_PARAMS = {(k[1].rsplit('.', 1)[-1], k[2]) for k in ACCEPTED}
 NON_OPERAND_PARAMS = {'h5gr', 'hdf5_saver', 'hdf5_loader', 'kwargs', 'options', 'func_kwargs',
                       'results', 'memo'}
 
@@ -109,6 +110,9 @@ def analyse_module(prog, rep, rel, own, inplace, deep, writes_params, tier):
     m = prog.module(rel)
     rep.unit(m)
     n = 0
+    # private helpers that only run as part of in-place methods / constructors write `self` too
+    derived = phase_helpers(m, set(inplace) | SELF_WRITERS_EXTRA)
+    rep.extra.setdefault('derived_self_writers', {})[rel] = sorted(derived)
     for q, f in m.functions.items():
         if q.count('.') > 1:
             continue
@@ -116,8 +120,9 @@ def analyse_module(prog, rep, rel, own, inplace, deep, writes_params, tier):
         cls_name = q.split('.')[0] if '.' in q else None
         if cls_name is None and f.name in inplace:
             continue  # module-level helper declared in-place by its name
+        private = f.name.startswith('_') and not f.name.startswith('__')
         self_writable = f.name in inplace or f.name in SELF_WRITERS_EXTRA or 'inplace' in pm or \
-            (cls_name is not None and cls_name not in VALUE_CLASSES)
+            (cls_name is not None and cls_name not in VALUE_CLASSES) or f.name in derived
         fi = FuncInfo(f, q, self_writable)
         for st, kind, root, attr, desc in own.write_sites(fi):
             o = own.origin_at(fi, st, root)
@@ -135,6 +140,10 @@ def analyse_module(prog, rep, rel, own, inplace, deep, writes_params, tier):
             if (rel, q, bname) in ACCEPTED and ACCEPTED[(rel, q, bname)]:
                 continue
             if bname in NON_OPERAND_PARAMS:
+                continue
+            if private and bname in fi.params and bname not in ('self', 'cls') and \
+                    f.name in writes_params and bname in writes_params[f.name][0]:
+                # output parameter of a private helper: decided at its call sites (OWN-callee)
                 continue
             why = None
             if kind == 'rebind':
@@ -174,11 +183,20 @@ def analyse_module(prog, rep, rel, own, inplace, deep, writes_params, tier):
                               (q, bname, key_text(st)[:80], why), st.lineno)
         # calls of module-level workers that write their parameters
         for c in body_nodes(f):
-            if isinstance(c, ast.Call) and isinstance(c.func, ast.Name) and \
-                    c.func.id in writes_params:
-                wp, pnames = writes_params[c.func.id]
+            cname = None
+            if isinstance(c, ast.Call) and isinstance(c.func, ast.Name):
+                cname = c.func.id
+            elif isinstance(c, ast.Call) and isinstance(c.func, ast.Attribute) and \
+                    c.func.attr.startswith('_') and not c.func.attr.startswith('__'):
+                cname = c.func.attr
+            if cname in writes_params and cname != f.name:
+                wp, pnames = writes_params[cname]
+                if isinstance(c.func, ast.Attribute) and pnames and pnames[0] in ('self', 'cls'):
+                    pnames = pnames[1:]
                 for i, a in enumerate(c.args):
-                    if i < len(pnames) and pnames[i] in wp:
+                    if i < len(pnames) and pnames[i] in wp and \
+                            pnames[i] not in NON_OPERAND_PARAMS and \
+                            (cname, pnames[i]) not in ACCEPTED_CALLEE_PARAMS:
                         o = own.origin(fi, a)
                         rep.instance('OWN-callee', {'function': q, 'call': unparse(c)[:60],
                                                     'arg': unparse(a), 'origin': o},
@@ -186,10 +204,10 @@ def analyse_module(prog, rep, rel, own, inplace, deep, writes_params, tier):
                         if o == 'P' and not (isinstance(a, ast.Name) and a.id == 'self' and
                                              self_writable):
                             rep.violation('OWN-callee', m, q,
-                                          'own-callee:%s:%s' % (c.func.id, pnames[i]),
+                                          'own-callee:%s:%s' % (cname, pnames[i]),
                                           '`%s` passes `%s` (may be an operand) to %s, which '
                                           'writes its parameter `%s`' %
-                                          (unparse(c)[:70], unparse(a), c.func.id, pnames[i]),
+                                          (unparse(c)[:70], unparse(a), cname, pnames[i]),
                                           c.lineno)
     return n
 
@@ -512,7 +530,8 @@ def run(prog, rep, tier):
     for rel in (NPC, CH):
         mm = prog.module(rel)
         for q, f in mm.functions.items():
-            if '.' in q:
+            if '.' in q and not (q.count('.') == 1 and f.name.startswith('_') and
+                                 not f.name.startswith('__')):
                 continue
             fi = FuncInfo(f, q, False)
             wp = set()
